@@ -113,6 +113,25 @@ CHECKS = {'C01': {'level': 'exploration',
                     'checks': {'quick': 250, 'thorough': 2500},
                     'shards': {'quick': 1, 'thorough': 16},
                     'timeout': {'quick': 900, 'thorough': 3400}}]},
+ 'C08': {'level': 'exploration',
+         'rule': 'generated programs: one task calling Snapshot plus 2..4 writer tasks (1..2 transactions each: merges/puts into shared rows of 1..3 '
+                 'blocks incl. order-sensitive merges, deletes of privately owned rows, single- and multi-block) under the cooperative scheduler '
+                 'with every commit yield point (pre-latch, post-latch) and every snapshot yield point (recorder-open, pre-chunk per block, '
+                 'pre-close, pre-copy); schedules drawn by rapid, and bounded-exhaustive DFS over three fixed configurations (see exhaustive_over; '
+                 'complete only when the bound is not hit). Oracle: from the recording logger the applied commit sequence c1..cn of every block with '
+                 'logical clocks; lo_b = commits of transactions that had RETURNED before the snapshot call began, hi_b = commits applied before it '
+                 'returned; the reference model computes the block states s0..sn; after Restore into a fresh collection block b must equal s_k for '
+                 'some lo_b <= k <= hi_b; Snapshot and Restore must return nil, not panic, not hang. non-trivial = >=1 commit was applied between '
+                 'recorder-open and pre-close; distinct = program + schedule',
+         'assumptions': ['context switches only at the verif yield points',
+                         'writers do not insert while known finding f10 (in-flight reservations visible to snapshots) is active - counted'],
+         'tests': [{'run': '^TestC08Sched$',
+                    'checks': {'quick': 700, 'thorough': 8000},
+                    'shards': {'quick': 1, 'thorough': 12},
+                    'timeout': {'quick': 900, 'thorough': 3400}},
+                   {'run': '^TestC08Exhaustive$',
+                    'env': {'VERIF_SCHED_LIMIT': {'quick': 250, 'thorough': 30000}},
+                    'timeout': {'quick': 900, 'thorough': 3400}}]},
  'C09': {'level': 'exploration',
          'rule': 'controlled-schedule part: generated programs of 2..4 writer tasks (1..2 transactions each, 1..4 steps: merges and puts into SHARED '
                  'rows of 1..3 blocks through an additive int merge, an order-sensitive int merge v*3+d and an order-sensitive same-length string '
